@@ -398,3 +398,36 @@ func VerifHarness_C09_MonthPrecisionValuesOnAnyDay() {
 	}
 	verifrt.Reach("end")
 }
+
+// C09: a month step that clamps to the end of a shorter month changes the day and nothing else: the time of day -
+// hours, minutes, seconds and the fraction - stays, for millisecond-precision values too. Days from a menu (each one
+// clamps), the time of day from a menu.
+func VerifHarness_C09_MonthClampKeepsTheTimeOfDay() {
+	cases := []struct {
+		from, to int64 // midnight UTC, seconds
+		months   int
+	}{{1580428800, 1582934400, 1}, {1585612800, 1588204800, 1}, {1548720000, 1551312000, 1}, {1598832000, 1601424000, 1},
+		{1585612800, 1582934400, -1}, {1580428800, 1582934400, 13 - 12}}
+	k := cases[verifrt.Choose("case", len(cases))]
+	// (time of day and fraction from menus: with them symbolic the addition - which renders and re-parses its result -
+	// does not finish in the quick solver budget; the thorough tier's DateTimeAdd harnesses have symbolic clocks)
+	ofDay := []int64{0, 36930, 86399}[verifrt.Choose("secondOfDay", 3)]*1000000 + []int64{0, 1, 250, 999}[verifrt.Choose("ms", 4)]*1000
+	p := []dtpb.DateTime_Precision{dtpb.DateTime_MILLISECOND, dtpb.DateTime_SECOND}[verifrt.Choose("precision", 2)]
+	if p == dtpb.DateTime_SECOND {
+		ofDay -= ofDay % 1000000
+	}
+	dt, err := DateTimeFromProto(&dtpb.DateTime{ValueUs: k.from*1000000 + ofDay, Precision: p, Timezone: "Z"})
+	verifrt.Assume(err == nil)
+	var got DateTime
+	if verifrt.NondetBool("bySubtraction") {
+		got, err = dt.Sub(verifQty(-k.months, "months"))
+	} else {
+		got, err = dt.Add(verifQty(k.months, "months"))
+	}
+	verifrt.Assert(err == nil, "month-step-is-accepted")
+	if err == nil {
+		back := got.ToProtoDateTime()
+		verifrt.Assert(back.ValueUs == k.to*1000000+ofDay && back.Precision == p, "month-clamp-keeps-the-time-of-day")
+	}
+	verifrt.Reach("end")
+}
